@@ -639,6 +639,7 @@ fn prepare(req: &Sx, dir: &str, cache: &mut Cache) -> Case {
         10 => prepare_files(req, dir),
         11 => prepare_ann_offset(req, dir),
         13 => prepare_merge(req, dir),
+        17 => prepare_many_subselectors(req, dir),
         16 => {
             let n = req.nth(2).int().max(0) as usize;
             let head = r#"{"@type":"AnnotationStore","@id":"c19","resources":[{"@type":"TextResource","@id":"r","text":"abcdefghij"}],"annotationsets":[{"@type":"AnnotationDataSet","@id":"s","keys":[{"@type":"DataKey","@id":"k"}]}]"#;
@@ -835,6 +836,73 @@ fn report_merged(st: &AnnotationStore) -> Sx {
             l(vec![a(0), l(data.iter().map(|(i, k)| l(vec![a(*i), a(*k)])).collect()), l(keys.iter().map(|k| a(*k)).collect())])
         }
         None => l(vec![a(0), l(vec![]), l(vec![])]),
+    }
+}
+
+/// (17 mode ctype kinds): annotation X with one complex selector over the given sub-selector kinds
+/// (0 resource, 1 annotation, 2 text, 3 data set, 4 key, 5 data, 6 annotation with offset); every
+/// reference resolves: T0 is an annotation on characters 0..50 of resource r (64 characters)
+fn prepare_many_subselectors(req: &Sx, dir: &str) -> Case {
+    let mode = req.nth(1).int();
+    let ctype = ["CompositeSelector", "MultiSelector", "DirectionalSelector"][(req.nth(2).int().max(0) as usize) % 3];
+    let kinds: Vec<i64> = req.nth(3).list().iter().map(|k| k.int()).collect();
+    let text64 = "abcdefghijklmnopqrstuvwxyzABCDEFGHIJKLMNOPQRSTUVWXYZ0123456789-_";
+    let off = |b: usize, e: usize| format!(r#"{{"@type":"Offset","begin":{{"@type":"BeginAlignedCursor","value":{}}},"end":{{"@type":"BeginAlignedCursor","value":{}}}}}"#, b, e);
+    match mode {
+        0 | 2 => {
+            let subs: Vec<String> = kinds
+                .iter()
+                .enumerate()
+                .map(|(i, k)| match k {
+                    0 => format!(r#"{{"@type":"ResourceSelector","resource":"{}"}}"#, if i % 2 == 0 { "r" } else { "r2" }),
+                    1 => r#"{"@type":"AnnotationSelector","annotation":"T0"}"#.to_string(),
+                    2 => format!(r#"{{"@type":"TextSelector","resource":"r","offset":{}}}"#, off(i % 60, i % 60 + 1)),
+                    3 => r#"{"@type":"DataSetSelector","annotationset":"s"}"#.to_string(),
+                    4 => r#"{"@type":"DataKeySelector","annotationset":"s","key":"k"}"#.to_string(),
+                    5 => r#"{"@type":"AnnotationDataSelector","annotationset":"s","data":"D0"}"#.to_string(),
+                    _ => format!(r#"{{"@type":"AnnotationSelector","annotation":"T0","offset":{}}}"#, off(i % 48, i % 48 + 1)),
+                })
+                .collect();
+            let head = format!(
+                r#"{{"@type":"AnnotationStore","@id":"c19","resources":[{{"@type":"TextResource","@id":"r","text":"{}"}},{{"@type":"TextResource","@id":"r2","text":"second"}}],"annotationsets":[{{"@type":"AnnotationDataSet","@id":"s","keys":[{{"@type":"DataKey","@id":"k"}}],"data":[{{"@type":"AnnotationData","@id":"D0","key":"k","value":{{"@type":"String","value":"v"}}}}]}}],"annotations":[{{"@type":"Annotation","@id":"T0","target":{{"@type":"TextSelector","resource":"r","offset":{}}},"data":[]}}"#,
+                text64,
+                off(0, 50)
+            );
+            let x = format!(r#"{{"@type":"Annotation","@id":"X","target":{{"@type":"{}","selectors":[{}]}},"data":[]}}"#, ctype, subs.join(","));
+            if mode == 0 {
+                let doc = format!("{},{}]}}", head, x);
+                let n = doc.len();
+                Case { load: Load::JsonStr(doc, cfgd()), input_bytes: n, report: report_none, probe: true, note: "many_subselectors_json" }
+            } else {
+                write_file(dir, "more.json", format!("[{}]", x).as_bytes());
+                let n = head.len() + x.len();
+                Case { load: Load::AnnotateFile(format!("{}]}}", head), format!("{}/more.json", dir)), input_bytes: n, report: report_none, probe: true, note: "many_subselectors_file" }
+            }
+        }
+        _ => {
+            csv_fixture(dir);
+            write_file(dir, "r.txt", text64.as_bytes());
+            let mut col: Vec<Vec<String>> = vec![vec![String::new()]; 8]; // kind res ann dset begin end key data
+            col[0][0] = ctype.to_string();
+            for (i, k) in kinds.iter().enumerate() {
+                let (kind, res, ann, dset, b, e, key, data): (&str, String, &str, &str, String, String, &str, &str) = match k {
+                    0 => ("ResourceSelector", (if i % 2 == 0 { "r" } else { "r2" }).to_string(), "", "", String::new(), String::new(), "", ""),
+                    1 => ("AnnotationSelector", String::new(), "T0", "", String::new(), String::new(), "", ""),
+                    2 => ("TextSelector", "r".to_string(), "", "", (i % 60).to_string(), (i % 60 + 1).to_string(), "", ""),
+                    3 => ("DataSetSelector", String::new(), "", "s", String::new(), String::new(), "", ""),
+                    4 => ("DataKeySelector", String::new(), "", "s", String::new(), String::new(), "k", ""),
+                    5 => ("AnnotationDataSelector", String::new(), "", "s", String::new(), String::new(), "", "D0"),
+                    _ => ("AnnotationSelector", String::new(), "T0", "", (i % 48).to_string(), (i % 48 + 1).to_string(), "", ""),
+                };
+                for (c, v) in col.iter_mut().zip([kind.to_string(), res, ann.to_string(), dset.to_string(), b, e, key.to_string(), data.to_string()]) {
+                    c.push(v);
+                }
+            }
+            let cells: Vec<String> = col.iter().map(|c| c.join(";")).collect();
+            let f = format!("{}T0,D0,s,TextSelector,r,,,0,50,,\nX,D0,s,{}\n", CSV_HEADER, cells.join(","));
+            write_file(dir, "c.annotations.stam.csv", f.as_bytes());
+            Case { load: Load::File(format!("{}/c.store.stam.csv", dir), cfgd()), input_bytes: f.len() + 300, report: report_none, probe: true, note: "many_subselectors_csv" }
+        }
     }
 }
 
@@ -1267,7 +1335,7 @@ pub fn run_batch(reqs: &[Sx]) -> Vec<Obs> {
 /// the observations of one request as the driver expects them
 fn outputs(req: &Sx, o: &Obs) -> Vec<Sx> {
     match inner(req).nth(0).int() {
-        1 | 2 | 7 | 8 | 9 | 11 | 13 | 16 => vec![l(vec![a(o.safety)]), if matches!(o.safety, 1 | 2 | 3) { l(vec![a(9)]) } else { o.result.clone() }],
+        1 | 2 | 7 | 8 | 9 | 11 | 13 | 16 | 17 => vec![l(vec![a(o.safety)]), if matches!(o.safety, 1 | 2 | 3) { l(vec![a(9)]) } else { o.result.clone() }],
         3 => vec![if o.safety == 1 { l(vec![a(-1)]) } else if o.safety == 2 { l(vec![a(-2)]) } else if o.safety != 0 { l(vec![a(-(o.safety))]) } else { o.result.clone() }],
         _ => vec![l(vec![a(o.safety)])],
     }
@@ -1777,6 +1845,36 @@ pub fn generate(out: &mut Out, tier: &str, seed: u64) {
             }
         }
     }
+    // (17) one complex selector over 2..40 sub-selectors of mixed kinds in several arrangements
+    {
+        let sizes: Vec<usize> = if thorough { (2..=40).collect() } else { vec![2, 3, 7, 20, 21, 22, 25, 32, 33, 40] };
+        let patterns: Vec<Vec<i64>> = vec![vec![2, 6, 0], vec![6, 0, 2, 3], vec![0, 1, 2, 3, 4, 5, 6], vec![6, 5, 4, 3, 2, 1, 0], vec![2, 2, 6, 6, 3, 0], vec![6, 3], vec![2, 0], vec![1, 6, 4]];
+        for &n in &sizes {
+            for pat in &patterns {
+                // round robin, and in blocks (all of the first kind, then all of the second, ...)
+                let rr: Vec<i64> = (0..n).map(|i| pat[i % pat.len()]).collect();
+                let mut blocks: Vec<i64> = rr.clone();
+                blocks.sort_by_key(|k| pat.iter().position(|p| p == k).unwrap_or(0));
+                let mut rev = blocks.clone();
+                rev.reverse();
+                for (ai, arr) in [rr, blocks, rev].iter().enumerate() {
+                    for mode in 0..3i64 {
+                        for ctype in 0..3i64 {
+                            if !thorough && (ai + (mode as usize) + (ctype as usize) + n) % 3 != 0 {
+                                continue;
+                            }
+                            reqs.push((l(vec![a(17), a(mode), a(ctype), l(arr.iter().map(|k| a(*k)).collect())]), "many_subselectors".into()));
+                        }
+                    }
+                }
+            }
+        }
+        for _ in 0..(if thorough { 2000 } else { 150 }) {
+            let n = 2 + rng.below(39);
+            let arr: Vec<Sx> = (0..n).map(|_| a(rng.below(7) as i64)).collect();
+            reqs.push((l(vec![a(17), a(rng.below(3) as i64), a(rng.below(2) as i64), l(arr)]), "many_subselectors_random".into()));
+        }
+    }
     // (16) inline data whose "@id" is the empty string
     for mode in 0..2i64 {
         for n in [1i64, 2, 3, 5] {
@@ -1941,6 +2039,6 @@ pub fn generate(out: &mut Out, tier: &str, seed: u64) {
     out.count_n("max_cpu_ms_measured", stats.max_cpu_ms);
 }
 
-pub const RULE: &str = "String parsers in process: every string of length <=4 (thorough 5) over {+,-,0,1,9,x,space} and boundary values around 2^63/2^64 for Cursor, every keyword of Type/SelectorKind/DataFormat in case/letter variants (incl. U+212A, U+0130), every string of length <=3 (thorough 4) over {!,A,R,U+C9,U+FF21,U+1D400,a,0,1,9,+,-} through every id lookup. Documents in child processes (ulimit -v 2 GiB, stdin closed, hang = 60 s without progress; memory budget 48 MiB + input/4, cpu budget 1.5 s + 4 us/byte, both measured): annotations/data arrays of <=3 items over 10 identifier shapes x buildable or not x one or two arrays x strip_temp_ids on/off x empty or non-empty store, identifiers with numbers up to 2^64, composite targets over all pairs (thorough triples) of sub-selector kinds, random longer documents; CSV rows: every simple selector kind x reference/offset/key column shapes, complex rows over all pairs of sub-selector kinds with full, missing, short and empty columns, random rows; @include chains and cycles, \"-\" as include, self-referring manifests and other odd file references; the same arrays through merge_json_str; cpu time of n against 4n annotations with inline data (with/without ids, one key/one key each); CBOR nesting depth and out-of-range handles; one data set defined twice (second definition identical / permuted / subset / superset / disjoint, through sub-stores, with_file, merge_json_str, merge_json_file, two set objects in one merged file); with_file of a CSV store; an AnnotationSelector with offset on annotations of all ten target kinds x 8 offsets in JSON, annotate_from_file and CSV; every length header (string/array/map) of the CBOR files rewritten in 20 ways (huge values, 1/2/4/8-byte forms, indefinite, +-1, 0); generic mutations of library-written JSON (delete/duplicate/swap every node, retype, dangling/cyclic/temporary references, extreme integers, truncation, bit flips), CSV (truncation, bit flips, cell replacement in every file) and CBOR (truncation at every (quick: third) byte, bit flips). A third (thorough: all) of the abstract and targeted requests and a tenth (thorough: a third) of the generic mutation requests are repeated under another Config (milestone_interval 0, 1, 2; shrink_to_fit off; generate_ids on; all reverse indices off; use_include off; all of these together), every Config on well-formed documents of each format: the prediction is that of the request under the default Config. Non-trivial: the document loads and the lookups run. distinct = distinct request lines.";
+pub const RULE: &str = "String parsers in process: every string of length <=4 (thorough 5) over {+,-,0,1,9,x,space} and boundary values around 2^63/2^64 for Cursor, every keyword of Type/SelectorKind/DataFormat in case/letter variants (incl. U+212A, U+0130), every string of length <=3 (thorough 4) over {!,A,R,U+C9,U+FF21,U+1D400,a,0,1,9,+,-} through every id lookup. Documents in child processes (ulimit -v 2 GiB, stdin closed, hang = 60 s without progress; memory budget 48 MiB + input/4, cpu budget 1.5 s + 4 us/byte, both measured): annotations/data arrays of <=3 items over 10 identifier shapes x buildable or not x one or two arrays x strip_temp_ids on/off x empty or non-empty store, identifiers with numbers up to 2^64, composite targets over all pairs (thorough triples) of sub-selector kinds, random longer documents; CSV rows: every simple selector kind x reference/offset/key column shapes, complex rows over all pairs of sub-selector kinds with full, missing, short and empty columns, random rows; @include chains and cycles, \"-\" as include, self-referring manifests and other odd file references; the same arrays through merge_json_str; cpu time of n against 4n annotations with inline data (with/without ids, one key/one key each); CBOR nesting depth and out-of-range handles; one complex selector over 2..40 resolvable sub-selectors of all seven kinds (round robin, blocks, reversed, random) in JSON, CSV and annotate_from_file; one data set defined twice (second definition identical / permuted / subset / superset / disjoint, through sub-stores, with_file, merge_json_str, merge_json_file, two set objects in one merged file); with_file of a CSV store; an AnnotationSelector with offset on annotations of all ten target kinds x 8 offsets in JSON, annotate_from_file and CSV; every length header (string/array/map) of the CBOR files rewritten in 20 ways (huge values, 1/2/4/8-byte forms, indefinite, +-1, 0); generic mutations of library-written JSON (delete/duplicate/swap every node, retype, dangling/cyclic/temporary references, extreme integers, truncation, bit flips), CSV (truncation, bit flips, cell replacement in every file) and CBOR (truncation at every (quick: third) byte, bit flips). A third (thorough: all) of the abstract and targeted requests and a tenth (thorough: a third) of the generic mutation requests are repeated under another Config (milestone_interval 0, 1, 2; shrink_to_fit off; generate_ids on; all reverse indices off; use_include off; all of these together), every Config on well-formed documents of each format: the prediction is that of the request under the default Config. Non-trivial: the document loads and the lookups run. distinct = distinct request lines.";
 
 pub const EXHAUSTIVE: bool = true;
